@@ -743,3 +743,54 @@ def c11_fallback(text, config, has_tr, has_sec):
         if not forced and not d.e_flags:
             return True, 'fallback without an error flag'
     return False, f'{[(t.trs, t.desc) for t in d.tracts]} e_flags={d.e_flags}'
+
+
+# ------------------------------------------------------------------ C20
+@replay('c20_modes')
+def c20_modes(text, expected, what):
+    import pytrs
+    from props.c11_ref import whole
+    exp = [tuple(x) for x in expected]
+    run = lambda cfg: pytrs.PLSSDesc(text, config=cfg)
+    obs = lambda d: [(t.trs, t.desc) for t in d.tracts]
+    base = run('')
+    if obs(base) != exp:
+        return True, f'default parse gives {obs(base)}, expected {exp}'
+    if what == 'segment':
+        d = run('segment')
+        return obs(d) != exp, f'segment: {obs(d)} vs {exp}'
+    req, cau = run('sec_colon_required'), run('sec_colon_cautious')
+    if what == 'colon_all':
+        return obs(req) != exp or obs(cau) != exp, f'required {obs(req)} cautious {obs(cau)} expected {exp}'
+    bad = obs(cau) != exp or not any(f.startswith('pulled_sec_without_colon') for f in cau.w_flags) or \
+        not (len(req.tracts) == 1 and whole(req.tracts[0].desc, req.pp_desc))
+    return bad, f'cautious {obs(cau)} {cau.w_flags}; required {obs(req)}'
+
+
+@replay('c20_within')
+def c20_within(text, trs, lead, trail):
+    import pytrs
+    d = pytrs.PLSSDesc(text, config='sec_within')
+    tracts = [(t.trs, t.desc) for t in d.tracts]
+    if [t[0] for t in tracts] != trs:
+        return True, f'tracts {tracts}, expected sections {trs}'
+    lw = [w for w in lead.replace(',', ' ').split() if w.lower() != 'of']
+    tw = trail.replace(',', ' ').split()
+    for t, desc in tracts:
+        pos = -1
+        for w in lw + tw:
+            i = desc.find(w, pos + 1)
+            if i < 0:
+                return True, f'description {desc!r} lacks {w!r} in order'
+            pos = i
+    return not any(f.startswith('sec_within') for f in d.w_flags), f'{tracts} w_flags={d.w_flags}'
+
+
+@replay('c20_colon_group')
+def c20_colon_group(text):
+    import pytrs
+    stripped = text
+    has_colon = ':' in text
+    a = pytrs.PLSSDesc('T154N-R97W ' + text + ' NE/4', config='sec_colon_required')
+    picked = len(a.tracts) >= 1 and not any(t.desc.startswith('T154N') for t in a.tracts)
+    return picked != has_colon, f'{text!r}: colon present={has_colon}, section accepted under sec_colon_required={picked}: {[(t.trs, t.desc) for t in a.tracts]}'
